@@ -316,6 +316,52 @@ def generate_ctl(repo: Path) -> str:
             + CTL_TIE + "\nend Pamiq.GenCtl\n")
 
 
+STATUS_TIE = r'''/-- The two flags of a background thread as the protocol model holds them. -/
+def ofThread (th : Proto.BThread) : TC := { paused_event := th.pausedFlag, exception_event := th.excFlag }
+
+macro "st_simp" : tactic => `(tactic|
+  simp [pause, resume, exception_raised, is_pause, is_resume, is_exception_raised, getS, modifyS, ofThread,
+    StateT.run, bind, StateT.bind, get, getThe, MonadStateOf.get, StateT.get, pure, StateT.pure, set, StateT.set, modify,
+    modifyGet, MonadStateOf.modifyGet, StateT.modifyGet, *])
+
+/-- **`ThreadStatus.pause()` sets the paused flag and nothing else** - the write of `bSetPaused`; `resume()` clears it
+(`bClearPaused`); `exception_raised()` sets the exception flag and leaves the paused flag alone (`bSetExc`). -/
+theorem pause_sets_flag (st : TC) :
+    (pause.run (st, [])).map (fun r => (r.2.1.paused_event, r.2.1.exception_event, r.2.1.log)) =
+      some (true, st.exception_event, st.log ++ ["set paused_event"]) := by
+  st_simp
+
+theorem resume_clears_flag (st : TC) :
+    (resume.run (st, [])).map (fun r => (r.2.1.paused_event, r.2.1.exception_event, r.2.1.log)) =
+      some (false, st.exception_event, st.log ++ ["clear paused_event"]) := by
+  st_simp
+
+theorem exception_raised_sets_flag (st : TC) :
+    (exception_raised.run (st, [])).map (fun r => (r.2.1.paused_event, r.2.1.exception_event, r.2.1.log)) =
+      some (st.paused_event, true, st.log ++ ["set exception_event"]) := by
+  st_simp
+
+/-- the reads are reads: the flags as they are, nothing written -/
+theorem reads_are_pure (st : TC) :
+    is_pause.run (st, []) = some (st.paused_event, (st, [])) ∧
+    is_resume.run (st, []) = some (!st.paused_event, (st, [])) ∧
+    is_exception_raised.run (st, []) = some (st.exception_event, (st, [])) := by
+  refine ⟨?_, ?_, ?_⟩ <;> st_simp
+
+'''
+
+
+def generate_status(repo: Path) -> str:
+    """`ThreadStatus` (the paused flag and the exception flag of a background thread) as a Lean state machine that logs
+    its writes, tied to the flag writes of `Pamiq.Proto`."""
+    import translate_class as TCm
+    c = TCm.ClassTr(repo, "thread/thread_control.py", "ThreadStatus", skip_fields=())
+    c.log_writes = True
+    return ("import Pamiq.Model.Proto\nset_option linter.unusedSimpArgs false\nnamespace Pamiq.GenStatus\nopen Pamiq\n\n"
+            + c.generate(["pause", "resume", "exception_raised", "is_pause", "is_resume", "is_exception_raised"]) + "\n"
+            + STATUS_TIE + "\nend Pamiq.GenStatus\n")
+
+
 TSCHED_TIE = r'''def ofSched (s : Sched.TSched) : TC := { interval := s.interval, previous_available_time := s.prev }
 
 /-- **`update()` decides once**: the callbacks run and the interval restarts iff the *first* reading is more than
@@ -459,6 +505,7 @@ def generate_class(repo: Path) -> str:
 def check_class(res: SuiteResult, repo: Path, which: str = "TimeController") -> None:
     gen, ns, model, nmeth = {"TimeController": (generate_class, "GenTC", "Pamiq.Clock", len(CLASS_METHODS)),
                              "ThreadController": (generate_ctl, "GenCtl", "Pamiq.Proto", len(CTL_METHODS)),
+                             "ThreadStatus": (generate_status, "GenStatus", "Pamiq.Proto (flag writes)", 6),
                              "TimeIntervalScheduler": (generate_tsched, "GenTSched", "Pamiq.Sched", 2),
                              "StepIntervalScheduler": (generate_ssched, "GenSSched", "Pamiq.Sched", 3),
                              "ControlThread.on_tick": (generate_control_tick, "GenCT", "Pamiq.Tick", 5),
@@ -569,6 +616,8 @@ def suite_for(*props: str):
             check_class(res, Path(REPO), "ControlThread.pause_save")
         if {"C01", "C02", "C09"} & set(props):
             check_class(res, Path(REPO), "ControllerCommandHandler")
+        if {"C01", "C03"} & set(props):
+            check_class(res, Path(REPO), "ThreadStatus")
         if "C08" in props:
             check_class(res, Path(REPO), "InferenceThread.statistics")
         if "C13" in props:
@@ -663,6 +712,10 @@ if __name__ == "__main__":
                         "thread/threads/training.py (reference copy of what every C13 run re-creates and re-checks; do not "
                         "edit). -/\n" + generate_training_tick(Path(REPO)))
         print("written", out9)
+        out10 = Path(LEAN_DIR) / "Pamiq" / "Gen" / "ThreadStatusTie.lean"
+        out10.write_text("/- GENERATED by harness/gentie.py (translate_class.py) from /repo's thread/thread_control.py (reference "
+                         "copy of what every C01 / C03 run re-creates and re-checks; do not edit). -/\n" + generate_status(Path(REPO)))
+        print("written", out10)
         out = Path(LEAN_DIR) / "Pamiq" / "Gen" / "DecisionsTie.lean"
         out.parent.mkdir(exist_ok=True)
         out.write_text("/- GENERATED by harness/gentie.py from /repo's source (reference copy of what every run "
